@@ -199,6 +199,13 @@ def gen_case(rng, opts=None):
         if anim:
             fr["dur"] = 1
             fr["is_last"] = k == nframes - 1
+        # restoration filter (+ squeeze): colour grids are cropped to the filter padding while extra
+        # channels may be decoded in full, so channel grids of one render cover different regions
+        if o.get("filters", rng.random() < 0.25) and bits <= 16:
+            fr["gab"] = True
+            fr["epf"] = rng.choice([0, 0, 1, 2])
+            if w >= 2 and h >= 2 and rng.random() < 0.6:
+                fr["tr"] = [("sq", [])]
         frames.append(fr)
     # oriented size
     W, H = (w, h) if orient <= 4 else (h, w)
